@@ -148,16 +148,16 @@ struct Dom11 {
 }
 
 fn dom11(thorough: bool) -> Dom11 {
-    let top = usize::MAX - 15 - 16 * if thorough { 64 } else { 16 } - 256;
-    let mut sizes: Vec<usize> = (0..=if thorough { 200 } else { 80 }).collect();
+    let top = usize::MAX - 15 - 16 * if thorough { 128 } else { 16 } - 1024;
+    let mut sizes: Vec<usize> = (0..=if thorough { 320 } else { 80 }).collect();
     sizes.extend([255, 256, 257, 1 << 31, 1 << 62, (isize::MAX as usize) - 4095, isize::MAX as usize]);
     let mut aligns: Vec<usize> = (0..=12).map(|k| 1usize << k).collect();
     aligns.extend([1 << 20, 1 << 29, 1 << 62]);
     Dom11 {
         // the last base makes the windows end exactly at the highest 16-aligned address
-        bases: vec![16, 4096, 1 << 31, (1 << 47) - 4096, (1 << 63) - 256, 1 << 63, top & !4095, (usize::MAX - 15) - 16 * if thorough { 64 } else { 16 }],
-        start_offs: if thorough { 256 } else { 64 },
-        max_blocks: if thorough { 64 } else { 16 },
+        bases: vec![16, 4096, 1 << 31, (1 << 47) - 4096, (1 << 63) - 256, 1 << 63, top & !4095, (usize::MAX - 15) - 16 * if thorough { 128 } else { 16 }],
+        start_offs: if thorough { 512 } else { 64 },
+        max_blocks: if thorough { 128 } else { 16 },
         sizes,
         aligns,
     }
